@@ -422,9 +422,18 @@ def taken_edges(b, site_bb):
     return out
 
 
+def _slice_key(b, p):
+    """canonical rendering of the slice a place denotes (through copies of temporaries), ignoring a trailing deref."""
+    rp = b.root_place(p, through_names=False)
+    pr = list(rp["p"])
+    while pr and pr[-1] == "*":
+        pr.pop()
+    return b.pname({"l": rp["l"], "p": pr}, 3)
+
+
 def slice_matches(b, site_bb):
-    """byte strings a slice-typed local is known to equal at site_bb, from lowered slice patterns
-    (len == N followed by per-index switches) and from `==`/has_type style calls: {local or term: bytes}."""
+    """byte strings a slice-typed value is known to equal at site_bb, from lowered slice patterns (a test of the length
+    followed by per-index switches) and from `==`/has_type style calls: {description: bytes}."""
     lens = {}
     elems = {}
     out = {}
@@ -437,7 +446,16 @@ def slice_matches(b, site_bb):
             if x == s:
                 val = int(v)
         if p is not None and p["p"] and isinstance(p["p"][-1], dict) and "cidx" in p["p"][-1] and not p["p"][-1]["end"] and val is not None:
-            elems.setdefault(p["l"], {})[p["p"][-1]["cidx"]] = val
+            key = _slice_key(b, {"l": p["l"], "p": p["p"][:-1]})
+            elems.setdefault(key, {})[p["p"][-1]["cidx"]] = val
+            continue
+        if t["dty"] != "bool" and val is not None:
+            # multi-way switch on the length of a slice
+            dl = b.def_rv(d)
+            if dl and dl[2] == "rv" and dl[3]["k"] == "un" and dl[3]["op"] == "PtrMetadata":
+                lp = op_place(dl[3]["o"])
+                if lp is not None:
+                    lens[_slice_key(b, lp)] = val
             continue
         # bool conditions
         if t["dty"] == "bool":
@@ -445,12 +463,13 @@ def slice_matches(b, site_bb):
             dd = b.def_rv(d)
             if dd and dd[2] == "rv" and dd[3]["k"] == "bin" and dd[3]["op"] == "Eq" and truth:
                 a, c = dd[3]["a"], dd[3]["b"]
-                ka = const_int(op_const(b.resolve_copy(c)) or {}) if op_const(b.resolve_copy(c)) else None
+                kc = op_const(b.resolve_copy(c))
+                ka = const_int(kc) if kc else None
                 da = b.def_rv(a)
                 if ka is not None and da and da[2] == "rv" and da[3]["k"] == "un" and da[3]["op"] == "PtrMetadata":
-                    lp = op_place(b.resolve_copy(da[3]["o"]))
-                    if lp is not None and not lp["p"]:
-                        lens[lp["l"]] = ka
+                    lp = op_place(da[3]["o"])
+                    if lp is not None:
+                        lens[_slice_key(b, lp)] = ka
             elif dd and dd[2] == "call" and truth:
                 nm = dd[3]["f"].get("fn") or ""
                 short = nm.rsplit("::", 1)[-1]
@@ -468,10 +487,10 @@ def slice_matches(b, site_bb):
                     kb = _const_bytes_through(b, dd[3]["args"][1])
                     if kb is not None:
                         out["eq:%s" % b.oname(dd[3]["args"][0], 3)] = kb
-    for l, n in lens.items():
-        e = elems.get(l, {})
+    for key, n in lens.items():
+        e = elems.get(key, {})
         if len(e) == n and set(e) == set(range(n)):
-            out["match:%s" % b.lname(l, 3)] = bytes(e[i] for i in range(n))
+            out["match:%s" % key] = bytes(e[i] for i in range(n))
     return out
 
 
